@@ -25,6 +25,7 @@ import (
 
 	"github.com/dadrus/heimdall/verif/engine"
 	"github.com/dadrus/heimdall/verif/hx"
+	"github.com/dadrus/heimdall/verif/props/c02"
 )
 
 // Op is one operation of a history (also the replay format).
@@ -49,6 +50,10 @@ type rdef struct {
 	bt      bool
 	// extra: a second route on the same path expression with a path_params condition (one rule, two routes on one node)
 	twoRoutes bool
+	// a glob the rule's hosts have to match ('.' separates) / the value of the rule's last named wildcard has to match
+	// ('/' separates)
+	hostGlob string
+	ppGlob   string
 }
 
 var bTrue = true
@@ -56,45 +61,50 @@ var bTrue = true
 // versions per source. valid=false means the processor must reject the set as a whole.
 var versions = map[string]map[string][]rdef{
 	"A": {
-		"v1": {{"r1", "/x", []string{"GET"}, false, false}, {"r2", "/x", nil, false, false}},
-		"v2": {{"r1", "/x", []string{"POST"}, false, false}, {"r2", "/x", nil, false, false}},
-		"v3": {{"r2", "/x", nil, false, false}, {"r1", "/x", []string{"GET"}, false, false}},
-		"v4": {{"r1", "/x", []string{"GET"}, false, false}},
-		"v5": {{"r1", "/x", []string{"GET"}, false, false}, {"r2", "/x", nil, false, false}, {"r3", "/y", nil, false, false}},
-		"v6": {{"r1", "/x", []string{"GET"}, true, false}, {"r2", "/x", []string{"GET"}, true, false}, {"r4", "/:p", nil, false, false}},
-		"v7": {{"r1", "/x/:p", []string{"GET"}, true, false}, {"r2", "/x/*q", nil, false, false}},
-		"v8": {{"r1", "/a/**/b", nil, false, false}},
-		"v9": {{"r1", "/z", nil, false, false}},
-		"va": {{"r2", "/x", []string{"POST"}, false, false}, {"r1", "/x", nil, false, false}, {"r5", "/xy", nil, false, false}},
+		"v1": {{id: "r1", path: "/x", methods: []string{"GET"}, bt: false, twoRoutes: false}, {id: "r2", path: "/x", methods: nil, bt: false, twoRoutes: false}},
+		"v2": {{id: "r1", path: "/x", methods: []string{"POST"}, bt: false, twoRoutes: false}, {id: "r2", path: "/x", methods: nil, bt: false, twoRoutes: false}},
+		"v3": {{id: "r2", path: "/x", methods: nil, bt: false, twoRoutes: false}, {id: "r1", path: "/x", methods: []string{"GET"}, bt: false, twoRoutes: false}},
+		"v4": {{id: "r1", path: "/x", methods: []string{"GET"}, bt: false, twoRoutes: false}},
+		"v5": {{id: "r1", path: "/x", methods: []string{"GET"}, bt: false, twoRoutes: false}, {id: "r2", path: "/x", methods: nil, bt: false, twoRoutes: false}, {id: "r3", path: "/y", methods: nil, bt: false, twoRoutes: false}},
+		"v6": {{id: "r1", path: "/x", methods: []string{"GET"}, bt: true, twoRoutes: false}, {id: "r2", path: "/x", methods: []string{"GET"}, bt: true, twoRoutes: false}, {id: "r4", path: "/:p", methods: nil, bt: false, twoRoutes: false}},
+		"v7": {{id: "r1", path: "/x/:p", methods: []string{"GET"}, bt: true, twoRoutes: false}, {id: "r2", path: "/x/*q", methods: nil, bt: false, twoRoutes: false}},
+		"v8": {{id: "r1", path: "/a/**/b", methods: nil, bt: false, twoRoutes: false}},
+		"v9": {{id: "r1", path: "/z", methods: nil, bt: false, twoRoutes: false}},
+		"va": {{id: "r2", path: "/x", methods: []string{"POST"}, bt: false, twoRoutes: false}, {id: "r1", path: "/x", methods: nil, bt: false, twoRoutes: false}, {id: "r5", path: "/xy", methods: nil, bt: false, twoRoutes: false}},
 		// wildcard names: the name used by a deleted version must not survive in the tree
-		"vb": {{"r1", "/w/:a", nil, false, false}},
-		"vc": {{"r1", "/w/:b", nil, false, false}},
+		"vb": {{id: "r1", path: "/w/:a", methods: nil, bt: false, twoRoutes: false}},
+		"vc": {{id: "r1", path: "/w/:b", methods: nil, bt: false, twoRoutes: false}},
 		// one rule with two routes on the same path expression
-		"vd": {{"r1", "/d/:a", nil, false, true}, {"r2", "/x", nil, false, false}},
+		"vd": {{id: "r1", path: "/d/:a", methods: nil, bt: false, twoRoutes: true}, {id: "r2", path: "/x", methods: nil, bt: false, twoRoutes: false}},
 		// like v4 with a changed condition: every rule on /x is restricted to some methods and does not allow backtracking,
 		// so a POST must end in "no rule" whatever the history of the node (children owned by B, earlier values) was
-		"ve": {{"r1", "/x", []string{"GET", "HEAD"}, false, false}},
+		"ve": {{id: "r1", path: "/x", methods: []string{"GET", "HEAD"}, bt: false, twoRoutes: false}},
 		// the very same rule definition (id and content) as B's w7: a rule moved between (or copied to) sources
-		"vf": {{"s1", "/m", nil, false, false}},
+		"vf": {{id: "s1", path: "/m", methods: nil, bt: false, twoRoutes: false}},
+		// a host glob with the very same text as the path_params glob of B's w8
+		"vg": {{id: "r1", path: "/g", hostGlob: "s-*"}},
 	},
 	"B": {
-		"w1": {{"q1", "/z", nil, false, false}},
-		"w2": {{"q1", "/z/:p", nil, false, false}, {"q2", "/zz", nil, false, false}},
-		"w3": {{"q1", "/x", nil, false, false}},
-		"w4": {{"q1", "/:p", []string{"POST"}, true, false}, {"q2", "/**", nil, false, false}},
-		"w5": {{"q1", "/w/:a/foo", nil, false, false}},
+		"w1": {{id: "q1", path: "/z", methods: nil, bt: false, twoRoutes: false}},
+		"w2": {{id: "q1", path: "/z/:p", methods: nil, bt: false, twoRoutes: false}, {id: "q2", path: "/zz", methods: nil, bt: false, twoRoutes: false}},
+		"w3": {{id: "q1", path: "/x", methods: nil, bt: false, twoRoutes: false}},
+		"w4": {{id: "q1", path: "/:p", methods: []string{"POST"}, bt: true, twoRoutes: false}, {id: "q2", path: "/**", methods: nil, bt: false, twoRoutes: false}},
+		"w5": {{id: "q1", path: "/w/:a/foo", methods: nil, bt: false, twoRoutes: false}},
 		// an expression below A's /x (keeps the node alive when A's value is removed) next to a catch-all
-		"w6": {{"q1", "/x/k", nil, false, false}, {"q2", "/**", nil, false, false}},
-		"w7": {{"s1", "/m", nil, false, false}},
+		"w6": {{id: "q1", path: "/x/k", methods: nil, bt: false, twoRoutes: false}, {id: "q2", path: "/**", methods: nil, bt: false, twoRoutes: false}},
+		"w7": {{id: "s1", path: "/m", methods: nil, bt: false, twoRoutes: false}},
+		"w8": {{id: "q1", path: "/f/:n", ppGlob: "s-*"}},
 	},
 }
 
 var verOrder = map[string][]string{
-	"A": {"v1", "v2", "v3", "v4", "v5", "v6", "v7", "v8", "v9", "va", "vb", "vc", "vd", "ve", "vf"},
-	"B": {"w1", "w2", "w3", "w4", "w5", "w6", "w7"},
+	"A": {"v1", "v2", "v3", "v4", "v5", "v6", "v7", "v8", "v9", "va", "vb", "vc", "vd", "ve", "vf", "vg"},
+	"B": {"w1", "w2", "w3", "w4", "w5", "w6", "w7", "w8"},
 }
 
-var probePaths = []string{"/x", "/y", "/z", "/zz", "/x/1", "/x/1/2", "/z/1", "/o", "/xy", "/w/1", "/w/1/foo", "/d/v", "/d/o", "/x/k", "/m"}
+var probePaths = []string{"/x", "/y", "/z", "/zz", "/x/1", "/x/1/2", "/z/1", "/o", "/xy", "/w/1", "/w/1/foo", "/d/v", "/d/o", "/x/k", "/m",
+	// "<host>|<path>": a probe with another host than the default "h"
+	"/f/s-a.b", "/f/t", "s-a.b|/g", "s-a|/g"}
 
 func ruleSet(src, ver string) *rulecfg.RuleSet {
 	rs := &rulecfg.RuleSet{Version: rulecfg.CurrentRuleSetVersion, Name: ver}
@@ -109,15 +119,30 @@ func ruleSet(src, ver string) *rulecfg.RuleSet {
 				Methods:             append([]string{}, d.methods...),
 				BacktrackingEnabled: &bt,
 			},
-			Execute: []config.MechanismConfig{{"authenticator": "anon"}},
 		}
+
+		if d.hostGlob != "" {
+			r.Matcher.Hosts = []rulecfg.HostMatcher{{Type: "glob", Value: d.hostGlob}}
+		}
+
+		r.Execute = []config.MechanismConfig{{"authenticator": "anon"}}
 		rs.Rules = append(rs.Rules, r)
 	}
 
 	return rs
 }
 
+func lastName(path string) string {
+	i := strings.LastIndexAny(path, ":*")
+
+	return path[i+1:]
+}
+
 func routesOf(d rdef) []rulecfg.Route {
+	if d.ppGlob != "" {
+		return []rulecfg.Route{{Path: d.path, PathParams: []rulecfg.ParameterMatcher{{Name: lastName(d.path), Type: "glob", Value: d.ppGlob}}}}
+	}
+
 	if !d.twoRoutes {
 		return []rulecfg.Route{{Path: d.path}}
 	}
@@ -178,7 +203,8 @@ func (w *world) probe() []string {
 
 	for _, m := range []string{"GET", "POST"} {
 		for _, p := range probePaths {
-			ctx := hx.NewCtx(m, "http://h"+p)
+			host, path := probeTarget(p)
+			ctx := hx.NewCtx(m, "http://"+host+path)
 
 			ru, err := findRule(w.repo, ctx)
 
@@ -191,6 +217,130 @@ func (w *world) probe() []string {
 				out = append(out, "default")
 			default:
 				out = append(out, fmt.Sprintf("%s@%s#%x", ru.ID(), ru.SrcID(), rules.VerifRuleHash(ru)[:4]))
+			}
+		}
+	}
+
+	return out
+}
+
+func probeTarget(p string) (host, path string) {
+	if h, rest, ok := strings.Cut(p, "|"); ok {
+		return h, rest
+	}
+
+	return "h", p
+}
+
+// ---------------------------------------------------------------------------
+// model: what the documented matching rules give for the current versions (the reference C02 and C03 hold fresh loads
+// against). The differential oracle alone cannot see state that outlives an instance (a process wide cache is shared by
+// the fresh instance as well); the model can.
+
+func globMatch(pattern, value string, sep byte) bool {
+	if pattern == "" {
+		return value == ""
+	}
+
+	switch pattern[0] {
+	case '*':
+		for i := 0; i <= len(value); i++ {
+			if globMatch(pattern[1:], value[i:], sep) {
+				return true
+			}
+
+			if i < len(value) && value[i] == sep {
+				break
+			}
+		}
+
+		return false
+	default:
+		return value != "" && value[0] == pattern[0] && globMatch(pattern[1:], value[1:], sep)
+	}
+}
+
+func contains(l []string, s string) bool {
+	for _, e := range l {
+		if e == s {
+			return true
+		}
+	}
+
+	return false
+}
+
+// lastCapture: the value of the last wildcard of the expression for a matching path
+func lastCapture(expr, path string) string {
+	es, ps := strings.Split(expr[1:], "/"), strings.Split(path[1:], "/")
+
+	for i := len(es) - 1; i >= 0; i-- {
+		switch {
+		case strings.HasPrefix(es[i], "*") && i < len(ps):
+			return strings.Join(ps[i:], "/")
+		case strings.HasPrefix(es[i], ":") && i < len(ps):
+			return ps[i]
+		}
+	}
+
+	return ""
+}
+
+func model(cur map[string]string) []string {
+	type mr struct {
+		d   rdef
+		src string
+	}
+
+	var (
+		rs    []mr
+		exprs []c02.Expr
+		flags []bool
+	)
+
+	for _, src := range []string{"A", "B"} {
+		v, ok := cur[src]
+		if !ok {
+			continue
+		}
+
+		for _, d := range versions[src][v] {
+			rs = append(rs, mr{d, src})
+			exprs = append(exprs, c02.ParseExpr(d.path))
+			flags = append(flags, d.bt)
+		}
+	}
+
+	out := make([]string, 0, 2*len(probePaths))
+
+	for _, m := range []string{"GET", "POST"} {
+		for _, p := range probePaths {
+			host, path := probeTarget(p)
+			truth := make([]bool, len(rs))
+
+			for i, r := range rs {
+				t := len(r.d.methods) == 0 || contains(r.d.methods, m)
+				t = t && (r.d.hostGlob == "" || globMatch(r.d.hostGlob, host, '.'))
+
+				if exprs[i].Matches(path) {
+					v := lastCapture(r.d.path, path)
+
+					if r.d.ppGlob != "" {
+						t = t && globMatch(r.d.ppGlob, v, '/')
+					}
+
+					if r.d.twoRoutes {
+						t = t && (v == "v" || v == "w")
+					}
+				}
+
+				truth[i] = t
+			}
+
+			if w := c02.RefLookup(exprs, flags, truth, path); w >= 0 {
+				out = append(out, rs[w].d.id+"@"+rs[w].src)
+			} else {
+				out = append(out, "default")
 			}
 		}
 	}
@@ -263,7 +413,12 @@ func probeName(i int) string {
 		m = "POST"
 	}
 
-	return m + " " + probePaths[i%len(probePaths)]
+	host, path := probeTarget(probePaths[i%len(probePaths)])
+	if host != "h" {
+		return m + " " + path + " (Host: " + host + ")"
+	}
+
+	return m + " " + path
 }
 
 // checkHistory replays a history on a fresh instance and evaluates all oracles for
@@ -337,6 +492,23 @@ func checkHistory(c *engine.Ctx, hist []Op) *world {
 		return w
 	}
 
+	// model oracle
+	for i, want := range model(w.cur) {
+		got := afterProbe[i]
+		if j := strings.IndexByte(got, '#'); j > 0 {
+			got = got[:j]
+		}
+
+		if got != want {
+			c.Violation("matching-differs-from-the-documented-semantics-of-the-current-sets/"+x(want == "default", "rule-matches-although-none-should",
+				x(got == "default" || got == "no-rule", "rule-not-matching", "other-rule-matches")),
+				fmt.Sprintf("%s: current=%s %s gives %s, the reference matcher over the current versions gives %s", histStr, w.curKey(),
+					probeName(i), afterProbe[i], want), hist)
+
+			break
+		}
+	}
+
 	for i := range afterProbe {
 		if f1[i] != f2[i] {
 			c.Outcome("probe-dropped-fresh-orders-disagree")
@@ -383,6 +555,14 @@ func guardedCheck(c *engine.Ctx, hist []Op) (w *world) {
 	return checkHistory(c, hist)
 }
 
+func x(cond bool, a, b string) string {
+	if cond {
+		return a
+	}
+
+	return b
+}
+
 func diagnose(got, want string, cur map[string]string) string {
 	ruleOf := func(s string) (id, src, hash string) {
 		if i := strings.IndexByte(s, '@'); i > 0 {
@@ -422,11 +602,11 @@ func Check() *engine.Check {
 	return &engine.Check{
 		ID:    "C06",
 		Level: "model_checking",
-		Rule: "explicit-state BFS over histories of add/update/delete on two sources (A: 15 versions incl. changed, reordered, removed, " +
-			"added rules, flipped backtracking, different node kinds, one invalid expression, one colliding with B; B: 7 versions incl. a collision " +
+		Rule: "explicit-state BFS over histories of add/update/delete on two sources (A: 16 versions incl. changed, reordered, removed, " +
+			"added rules, flipped backtracking, different node kinds, one invalid expression, one colliding with B; B: 8 versions incl. a collision " +
 			"with A and wildcard/catch-all sets) executed on the real rule-set processor + rule factory + repository; a state is de-duplicated by " +
 			"(current version per source, knownRules order, full structural dump of the radix tree incl. value order and backtracking flags); in " +
-			"every state 30 probe requests are compared with a fresh instance loaded once with the current versions (both source orders); after a " +
+			"every state 38 probe requests are compared with a fresh instance loaded once with the current versions (both source orders) and with a reference matcher over the current versions (the documented semantics: the differential oracle cannot see state that outlives an instance); after a " +
 			"rejected operation the structural dump and all probes must be unchanged.",
 		Assumptions: []string{
 			"mechanisms are scripted (always succeed); only matching is observed",
